@@ -169,9 +169,13 @@ let rec show_ax (x : ax) : Stdlib.String.t =
       (match xs, tl with
        | [], None -> "nil@" ^ sp_str sp
        | [], Some t ->
-           (match strip t with
-            | Nil -> "nil@" ^ sp_str sp
-            | _ -> "(?" ^ show_ax t ^ ")@" ^ sp_str sp)
+           (match t with
+            | AList ((_ :: _ as xs2), tl2, _) -> show_ax (AList (xs2, tl2, sp))
+            | _ ->
+              (match strip t with
+               | Nil -> "nil@" ^ sp_str sp
+               | Cons (_, _) -> "(?" ^ show_ax t ^ ")@" ^ sp_str sp
+               | _ -> "(" ^ show_ax t ^ ")@" ^ sp_str sp))
        | _, _ ->
            "(" ^ String.concat " " (List.map show_ax xs)
            ^ (match tl with
@@ -252,6 +256,40 @@ let () =
              | Err _ -> Printf.printf "%s %d PARSE err\n" !case_id !idx
              | Panic n -> Printf.printf "%s %d PARSE panic %d\n" !case_id !idx (int_of_n n)
              | Fuel -> Printf.printf "%s %d PARSE fuel\n" !case_id !idx);
+            incr idx
+        | ["parsex"; h] ->
+            let s = reset_request (get_ctx ()) !failat in
+            let (r, s') = parse_string fops !fuel (utf8_decode (hex_decode h)) s in
+            set_ctx s';
+            (match r with
+             | Ok v -> Printf.printf "%s %d PARSE ok %s\n" !case_id !idx (show_text (print fops v))
+             | Err EParse -> Printf.printf "%s %d PARSE err\n" !case_id !idx
+             | Err k -> Printf.printf "%s %d PARSE err-other\n" !case_id !idx
+             | Panic n -> Printf.printf "%s %d PARSE panic %d\n" !case_id !idx (int_of_n n)
+             | Fuel -> Printf.printf "%s %d PARSE fuel\n" !case_id !idx);
+            incr idx
+        | ["sweep"; alpha; len; first] ->
+            (* all strings of the given length over the alphabet, optionally with a fixed first character *)
+            let al = Array.of_list (utf8_decode (hex_decode alpha)) in
+            let n = int_of_string len and f = int_of_string first in
+            let k = Array.length al in
+            let s = get_ctx () in
+            let idxs = Array.make n 0 in
+            if f >= 0 && n > 0 then idxs.(0) <- f;
+            let continue = ref true in
+            while !continue do
+              let t = Array.to_list (Array.map (fun i -> al.(i)) idxs) in
+              let body = match read_ax fops s.flags t with
+                | Ok forms -> "ok " ^ hex_encode (String.concat " " (List.map show_ax forms))
+                | Err _ -> "err" | Panic n -> "panic" | Fuel -> "fuel" in
+              Printf.printf "%s %d SW %s %s\n" !case_id !idx (show_text t) body;
+              (* increment *)
+              let rec inc p =
+                if p < (if f >= 0 then 1 else 0) then continue := false
+                else if idxs.(p) + 1 < k then idxs.(p) <- idxs.(p) + 1
+                else (idxs.(p) <- 0; inc (p - 1)) in
+              if n = 0 then continue := false else inc (n - 1)
+            done;
             incr idx
         | ["end"] -> ()
         | [""] -> ()
